@@ -119,7 +119,7 @@ func C15(tier string) {
 	sizes := [][2]int{{3, 2}, {1, 4}, {4, 1}, {0, 0}, {5, 4}, {2, 7}, {64, 16}, {256, 3}}
 	origins := []image.Point{{0, 0}, {-2, -3}, {5, 7}, {-7, 2}}
 	pars := func(rows int) []int { return []int{1, 2, 3, 7, 16, rows + 5} }
-	r.Rule(fmt.Sprintf("complete product: 3 helpers x %d image types (every concrete type of package image incl. 6 YCbCr subsamplings, NYCbCrA, paletted, CMYK, alpha, plus an interface-only wrapper) x %d sizes x %d origins x {whole image, sub-image of a larger parent} x 3 byte patterns x parallelism {1,2,3,7,16,rows+5}; call sequences (convert, modify pixels and palette in place, convert again, convert another image sharing the palette, earlier result unchanged); thorough adds a 4096x4096 4:4:4 YCbCr holding all 2^24 (Y,Cb,Cr) triples and 256x256 NRGBA/RGBA/RGBA64/NRGBA64 images holding all 8-bit (channel, alpha) pairs; distinct = configurations with a non-empty input not already of the target type", len(imgKinds), len(sizes), len(origins)))
+	r.Rule(fmt.Sprintf("complete product: 3 helpers x %d image types (every concrete type of package image incl. 6 YCbCr subsamplings, NYCbCrA, paletted, CMYK, alpha, plus an interface-only wrapper) x %d sizes x %d origins x {whole image, sub-image of a larger parent} x 4 byte patterns (one fully opaque) x parallelism {1,2,3,7,16,rows+5}; call sequences (convert, modify pixels and palette in place, convert again, convert another image sharing the palette, earlier result unchanged); thorough adds a 4096x4096 4:4:4 YCbCr holding all 2^24 (Y,Cb,Cr) triples and 256x256 NRGBA/RGBA/RGBA64/NRGBA64 images holding all 8-bit (channel, alpha) pairs; distinct = configurations with a non-empty input not already of the target type", len(imgKinds), len(sizes), len(origins)))
 	r.Assume("image.Uniform (unbounded) is not a possible input of an allocating helper and is not generated; subsampled YCbCr/NYCbCrA images with negative coordinates are skipped because package image itself mis-indexes them")
 
 	type job struct {
@@ -131,7 +131,7 @@ func C15(tier string) {
 			for zi := range sizes {
 				for oi := range origins {
 					for _, m := range []int{0, 2} {
-						for seed := 0; seed < 3; seed++ {
+						for seed := 0; seed < 4; seed++ {
 							jobs = append(jobs, job{hi, ki, zi, oi, m, seed})
 						}
 					}
